@@ -1,13 +1,13 @@
 package main
 
 import (
-	"sort"
-	"time"
 	"encoding/json"
 	"errors"
 	"fmt"
 	"io"
+	"sort"
 	"strings"
+	"time"
 
 	"github.com/llir/llvm/ir"
 	"github.com/llir/llvm/zzsim/simrt"
@@ -119,7 +119,7 @@ type simWriter struct {
 	faultFired bool
 	midWrite   bool // the failure landed strictly inside one Write
 	pieces     int
-	extraCalls int // Flush/Sync/Close calls (kind extras)
+	extraCalls int  // Flush/Sync/Close calls (kind extras)
 	silent     bool // shape silent: the short Write has happened, its error is still to come
 }
 
